@@ -441,56 +441,29 @@ Lemma removed_remove_refused c a ok0 m ok s :
   no_add_ok m = true -> ok = false.
 Proof. intros H. eapply unknown_remove_refused_k. eapply model_refusals; eauto. Qed.
 
-(** * K6: attribution of cancellations *)
+(** * K6: attribution of cancellations (model after fix C13_1) *)
 
-(** refuted at full strength on the model as it mirrors the code now
-    (DEFECT C13_1): the second incarnation's first stream is cancelled although
-    nobody asked for it *)
-Definition log_kf1 : list event :=
-  [EAddCalled; EAdd true; EDial true; EOpen true; ESend true; ERecv (RMsg (MUpdate 1)); CConnect;
-   CUpdate 1; ERemoveCalled; ERecv RCancel; CReset; EDone; CConnErr; CMonErr; ERemoveReturned true;
-   EAddCalled; EAdd true; EDial true; EOpen true; ESend true; ERecv RCancel; CReset; EDone;
-   CConnErr; CMonErr;
-   EDial true; EOpen true; ESend true; ERemoveCalled; ERecv RCancel; CReset; EDone; CConnErr; CMonErr;
-   ERemoveReturned true].
-
-Lemma cause_refuted :
-  exists c tr, emits c tr /\ k_cause (c_timeout c) 0 false tr = false /\ readded tr = true.
-Proof.
-  exists cfg0, log_kf1. split; [|split; vm_compute; reflexivity].
-  assert (H : accepts cfg0 log_kf1 = true) by (vm_compute; reflexivity).
-  destruct (accepts_sound _ _ H) as (s & Hr & _). exists s; auto.
-Qed.
-
-(** monitor form of K6 that stops judging at the first successful Remove *)
-Definition cstep (timeout : bool) (x : option (nat * bool)) (e : event) : option (option (nat * bool)) :=
-  match x with
-  | None => Some None
-  | Some (rc, rm) =>
-      match e with
-      | EReconnectCalled => Some (Some (S rc, rm))
-      | ERemoveCalled => Some (Some (rc, true))
-      | ERemoveReturned true => Some None
-      | ERemoveReturned false => Some (Some (0, false))
-      | ERecv RCancel =>
-          if timeout || rm then Some x
-          else match rc with S k => Some (Some (k, rm)) | O => None end
-      | _ => Some x
-      end
+Definition cstep (timeout : bool) (x : nat * bool) (e : event) : option (nat * bool) :=
+  let '(rc, rm) := x in
+  match e with
+  | EReconnectCalled => Some (S rc, rm)
+  | ERemoveCalled => Some (rc, true)
+  | ERemoveReturned _ => Some (0, false)
+  | ERecv RCancel =>
+      if timeout || rm then Some x
+      else match rc with S k => Some (k, rm) | O => None end
+  | _ => Some x
   end.
 
 Lemma k_cause_cstep timeout tr : forall rc rm,
-  readded tr = false ->
-  orun (cstep timeout) (Some (rc, rm)) tr <> None -> k_cause timeout rc rm tr = true.
+  orun (cstep timeout) (rc, rm) tr <> None -> k_cause timeout rc rm tr = true.
 Proof.
-  induction tr as [|e tr IH]; intros rc rm Hr H; cbn; auto.
-  unfold readded in Hr. cbn in Hr. apply orb_false_iff in Hr. destruct Hr as [He Hr].
+  induction tr as [|e tr IH]; intros rc rm H; cbn; auto.
   cbn in H.
   destruct e; cbn in H; try (apply IH; auto; fail).
-  - destruct ok; [discriminate|]. apply IH; auto.
-  - destruct r; try (apply IH; auto; fail).
-    destruct (timeout || rm); [apply IH; auto|].
-    destruct rc; [congruence|]. apply IH; auto.
+  destruct r; try (apply IH; auto; fail).
+  destruct (timeout || rm); [apply IH; auto|].
+  destruct rc; [congruence|]. apply IH; auto.
 Qed.
 
 Definition after_stream (p : pc) : bool :=
@@ -499,25 +472,20 @@ Definition after_stream (p : pc) : bool :=
   | _ => false
   end.
 
-(** Reconnect calls the model still owes a cancelled stream to *)
 Definition need (timeout : bool) (s : st) : nat :=
   (match s_rc s with RcPending => 1 | _ => 0 end)
   + (if s_sdone s && negb (s_cdone s) && negb timeout && negb (after_stream (s_pc s)) then 1 else 0).
 
-Definition Rcause (timeout : bool) (s : st) (x : option (nat * bool)) : Prop :=
-  match x with
-  | None => True
-  | Some (rc, rm) =>
-      wfb s = true /\ s_stale s = 0 /\ s_phu s = false
-      /\ (s_rmc s = true -> rm = true) /\ need timeout s <= rc
-  end.
+Definition Rcause (timeout : bool) (s : st) (x : nat * bool) : Prop :=
+  let '(rc, rm) := x in
+  wfb s = true /\ (s_rmc s = true -> rm = true) /\ need timeout s <= rc.
 
 Lemma Rcause_tau c s s' x :
   In s' (tau c s) -> Rcause (c_timeout c) s x -> Rcause (c_timeout c) s' x.
 Proof.
-  destruct x as [[rcn rm]|]; [|auto]. intros Hin (W & Hs & Hp & Hrm & Hn).
+  destruct x as [rcn rm]. intros Hin (W & Hrm & Hn).
   destruct (wf_tau _ _ _ Hin W) as [W' _].
-  destruct s as [p rmc cd sd rc hu stl phu ad]. cbn in Hs, Hp. subst stl phu.
+  destruct s as [p rmc cd sd rc hu stl phu ad].
   unfold Rcause, need in *. unfold tau, managed in Hin.
   cbn [s_pc s_rmc s_cdone s_sdone s_rc s_hu s_stale s_phu s_add] in *.
   destruct (c_timeout c) eqn:Et;
@@ -536,17 +504,17 @@ Lemma Rcause_vis c s e s' x :
   In s' (vis c s e) -> Rcause (c_timeout c) s x ->
   exists x', cstep (c_timeout c) x e = Some x' /\ Rcause (c_timeout c) s' x'.
 Proof.
-  destruct x as [[rcn rm]|]; [|intros; exists None; split; cbn; auto].
-  intros Hin (W & Hs & Hp & Hrm & Hn).
+  destruct x as [rcn rm].
+  intros Hin (W & Hrm & Hn).
   destruct (wf_vis _ _ _ _ Hin W) as [W' _].
-  destruct s as [p rmc cd sd rc hu stl phu ad]. cbn in Hs, Hp. subst stl phu.
+  destruct s as [p rmc cd sd rc hu stl phu ad].
   unfold Rcause, need in *. unfold vis, managed in Hin. unfold wfb, managed, add_none, rc_none in W.
   cbn [s_pc s_rmc s_cdone s_sdone s_rc s_hu s_stale s_phu s_add] in *.
   destruct (c_timeout c) eqn:Et;
   destruct e as [ |ok| |ok| |ok| | |ok|ok| |ok|ok|r| |n| | | | ];
     cbn [cstep];
     inv_in Hin; subst; cbn [s_pc s_rmc s_cdone s_sdone s_rc s_hu s_stale s_phu s_add] in *;
-    try (eexists; split; [reflexivity|]); try exact I; cbn [orb];
+    try (eexists; split; [reflexivity|]); cbn [orb];
     try (repeat split; auto; try discriminate;
          repeat match goal with
                 | b : bool |- _ => destruct b
@@ -569,27 +537,15 @@ Proof.
       destruct rc; cbn in *; lia.
 Qed.
 
-Lemma cause_partial c tr s :
-  run c init tr s -> readded tr = false -> k_cause (c_timeout c) 0 false tr = true.
+Lemma cause_full c tr s :
+  run c init tr s -> k_cause (c_timeout c) 0 false tr = true.
 Proof.
-  intros H Hr. apply k_cause_cstep; auto.
+  intros H. apply k_cause_cstep; auto.
   destruct (simulation_st (cstep (c_timeout c)) (Rcause (c_timeout c)) c
-              (Rcause_tau c) (Rcause_vis c) _ _ _ H (Some (0, false))) as (x & Hx & _).
+              (Rcause_tau c) (Rcause_vis c) _ _ _ H (0, false)) as (x & Hx & _).
   - cbn. repeat split; auto; try discriminate; try lia.
   - congruence.
 Qed.
-
-Lemma reach_set_emits c tr s : In s (reach_set c tr) -> emits c tr.
-Proof.
-  unfold reach_set. intros H. apply run_set_sound in H. destruct H as (s1 & Hin & Hrun).
-  apply closure_sound in Hin. destruct Hin as (s0 & [<-|[]] & Hr0).
-  exists s. change tr with ([] ++ tr). eapply run_app; eauto.
-Qed.
-
-Example cause_partial_nonvacuous :
-  (exists s, In s (reach_set cfg0 (firstn 14 log_kf1))) /\ readded (firstn 14 log_kf1) = false
-  /\ existsb (fun e => match e with ERecv RCancel => true | _ => false end) (firstn 14 log_kf1) = true.
-Proof. split; [|vm_compute; auto]. vm_compute. eexists. left. reflexivity. Qed.
 
 (** * one_reset_per_stream: successful Sends and Resets alternate *)
 
@@ -620,6 +576,15 @@ Qed.
 Lemma one_reset_per_stream c tr s :
   run c init tr s -> quiescent (s_pc s) = true -> alt false (gor tr) = true.
 Proof. intros. apply wf_log_alt. eapply model_wf_log; eauto. Qed.
+
+(** * K7 soundness (the clause itself is a run-time observation; the model has no clock) *)
+
+Lemma k_backoff_sound mingap gaps :
+  k_backoff mingap gaps = true -> Forall (fun g => (mingap <= g)%Z) gaps.
+Proof.
+  unfold k_backoff. intros H. apply Forall_forall. intros g Hin.
+  rewrite forallb_forall in H. apply Z.leb_le. auto.
+Qed.
 
 (** * Witnesses that the hypotheses of the theorems are satisfiable *)
 
